@@ -201,7 +201,7 @@ def closure_sites(sf, lo, hi):
 class FnSpec:
     def __init__(self, name, requires=None, ensures=None, decreases=None, ret='r', loops=None, hints=None,
                  rewrites=None, mode='verify', props=(), canary=None, attrs=None, closures=None,
-                 head_proof=None, note=None, rename=None, no_unwind=False, params=None):
+                 head_proof=None, note=None, rename=None, no_unwind=False, params=None, head_ghost=None):
         self.name = name
         self.requires, self.ensures, self.decreases = requires, ensures, decreases
         self.ret = ret
@@ -218,6 +218,7 @@ class FnSpec:
         self.rename = rename
         self.no_unwind = no_unwind
         self.params = params              # {param name: new pattern}  (rarely needed)
+        self.head_ghost = head_ghost      # ghost `let` statements inserted at the start of the body (spec-only)
 
 
 def weave_fn(sf, it, spec, log, where, canary=False):
@@ -280,6 +281,11 @@ def weave_fn(sf, it, spec, log, where, canary=False):
         ed.add(toks[it.lo].start, toks[it.lo].start, pre)
     ctext = _contract_text(spec, canary)
     ed.add(body_open.start, body_open.start, ctext)
+    if spec.head_ghost and spec.mode == 'verify':
+        for g in spec.head_ghost.split(';'):
+            if g.strip() and not g.strip().startswith('let ghost '):
+                raise Undecided('%s: head_ghost may only contain `let ghost` statements' % where)
+        ed.add(body_open.end, body_open.end, '\n ' + spec.head_ghost + '\n')
     if spec.head_proof and spec.mode == 'verify':
         ed.add(body_open.end, body_open.end, '\n proof { ' + spec.head_proof + ' }\n')
     # loops
